@@ -213,10 +213,26 @@ func (t *translator) block(stmts []ast.Stmt, pair bool) string {
 		}
 		return t.fail(st, "assignment")
 	case *ast.IfStmt:
-		if x.Init != nil || x.Else != nil {
-			return t.fail(st, "if with init or else")
+		if x.Init != nil {
+			return t.fail(st, "if with init")
+		}
+		if x.Else != nil {
+			// if c { … return } else { … return }: both branches return, nothing follows
+			var els []ast.Stmt
+			switch e := x.Else.(type) {
+			case *ast.BlockStmt:
+				els = e.List
+			case *ast.IfStmt:
+				els = []ast.Stmt{e}
+			}
+			return "(if " + t.expr(x.Cond) + " then " + t.block(x.Body.List, pair) + " else " + t.block(append(append([]ast.Stmt{}, els...), rest...), pair) + ")"
 		}
 		return "(if " + t.expr(x.Cond) + " then " + t.block(x.Body.List, pair) + " else " + t.block(rest, pair) + ")"
+	case *ast.SwitchStmt:
+		if chain := switchToIf(x); chain != nil {
+			return t.block(append([]ast.Stmt{chain}, rest...), pair)
+		}
+		return t.fail(st, "switch")
 	}
 	return t.fail(st, "statement")
 }
